@@ -42,6 +42,7 @@ inline int run_main(int argc, char **argv, Campaign &c, const rc::Gen<Scenario> 
 		rc_exit = f.empty() ? 0 : 1;
 	} else {
 		std::string params = "seed=" + std::to_string(a.seed) + " max_success=" + std::to_string(a.cases) + " max_size=" + std::to_string(a.size) + " max_discard_ratio=100";
+		if (c.noshrink) params += " noshrink=1"; // the failing execution itself is the minimal unit (fault index inside the scenario)
 		setenv("RC_PARAMS", params.c_str(), 1);
 		// rapidcheck prints its own report to stderr; keep stdout for machine-readable lines
 		bool ok = rc::check(c.prop, [&]() {
